@@ -86,14 +86,16 @@ type frtValResponder struct {
 }
 
 type frtValSc struct {
-	K        int               `json:"k"`
-	Key      int               `json:"key"`
-	Peers    []crawledPeer     `json:"peers"`
-	Resp     []frtValResponder `json:"resp"`
-	Quorum   int               `json:"quorum"`
-	Local    int               `json:"local"` // 0 none; 1..4 valid local record of that rank; -5 local record that has expired by the validator's rule
-	UseGet   bool              `json:"use_get"`
-	CancelMs int               `json:"cancel_ms,omitempty"`
+	K          int               `json:"k"`
+	Key        int               `json:"key"`
+	Peers      []crawledPeer     `json:"peers"`
+	Resp       []frtValResponder `json:"resp"`
+	Quorum     int               `json:"quorum"`
+	Local      int               `json:"local"` // 0 none; 1..4 valid local record of that rank; -5 local record that has expired by the validator's rule
+	UseGet     bool              `json:"use_get"`
+	CancelMs   int               `json:"cancel_ms,omitempty"`
+	Offline    bool              `json:"offline,omitempty"`      // the routing.Offline option is passed
+	SlowReadMs int               `json:"slow_read_ms,omitempty"` // SearchValue: the consumer pauses this long after every value it reads
 }
 
 func frtValueOf(r frtValResponder, key string) *recpb.Record {
@@ -121,7 +123,7 @@ func TestVerif_C04_FullRT(t *testing.T) {
 	verifsim.RunCheck(t, verifsim.Check[frtValSc]{
 		Property: "C04", Part: "fullrt",
 		Rule: "rapid: an accelerated client over a crawl of 1-30 peers, K 1-8; every crawled peer is a scripted responder (latency 1-3000 ms, failing, serving a valid record of rank 1-3 in up to three byte variants, an invalid " +
-			"value, a record filed under another key, an empty or malformed value, or nothing); local storage empty / valid rank / a record that has since expired by the validator's rule; quorum 0/1/2/16; SearchValue or GetValue; optional " +
+			"value, a record filed under another key, an empty or malformed value, or nothing); local storage empty / valid rank / a record that has since expired by the validator's rule; quorum 0/1/2/16, with or without the Offline option; SearchValue (the consumer reads at once or pauses 1-3000 ms after every value; one case in five is a burst of valid records of different rank within 200 ms read by a pausing consumer) or GetValue; optional " +
 			"cancellation; oracle = every yielded value validates now, the stream is strictly improving under Select, the final value ranks at least as good as every valid value of local storage and of every answer processed before the " +
 			"stream ended (delivered before that instant, or the only thing that happened at it), nothing valid supplied => not-found; non-trivial = values of different rank among the K nearest, or an expired local record",
 		Gen: func(t *rapid.T) frtValSc {
@@ -140,6 +142,20 @@ func TestVerif_C04_FullRT(t *testing.T) {
 			sc.UseGet = rapid.Bool().Draw(t, "useGet")
 			if verifsim.Chance(t, "cancel", 12) {
 				sc.CancelMs = rapid.IntRange(1, 5000).Draw(t, "cancelMs")
+			}
+			sc.Offline = verifsim.Chance(t, "offline", 15)
+			if !sc.UseGet && verifsim.Chance(t, "slowRead", 40) {
+				sc.SlowReadMs = rapid.SampledFrom([]int{1, 40, 700, 3000}).Draw(t, "slowReadMs")
+			}
+			if verifsim.Chance(t, "burst", 20) {
+				// a burst of valid records of different rank within the first 200 ms, read by a consumer that takes its time, no quorum
+				sc.UseGet, sc.Quorum, sc.CancelMs = false, 0, 0
+				sc.K = rapid.SampledFrom([]int{6, 8}).Draw(t, "burstK")
+				sc.SlowReadMs = rapid.SampledFrom([]int{700, 3000}).Draw(t, "burstSlowReadMs")
+				sc.Peers = genCrawled(t, "bp", 10, 30)
+				sc.Resp = rapid.SliceOfN(rapid.Custom(func(t *rapid.T) frtValResponder {
+					return frtValResponder{LatMs: rapid.SampledFrom([]int{1, 2, 3, 10, 30, 50, 100, 200}).Draw(t, "blat"), Val: rapid.SampledFrom([]int{1, 2, 3}).Draw(t, "bval"), Var: rapid.SampledFrom([]int{0, 0, 1}).Draw(t, "bvar")}
+				}), 5, 10).Draw(t, "burstResp")
 			}
 			return sc
 		},
@@ -210,15 +226,20 @@ func TestVerif_C04_FullRT(t *testing.T) {
 				if sc.CancelMs > 0 {
 					go func() { time.Sleep(time.Duration(sc.CancelMs) * time.Millisecond); cancel() }()
 				}
+				opts := []routing.Option{kaddht.Quorum(sc.Quorum)}
+				if sc.Offline {
+					opts = append(opts, routing.Offline)
+				}
 				if sc.UseGet {
-					getRes, getErr = d.GetValue(ctx, key, kaddht.Quorum(sc.Quorum))
+					getRes, getErr = d.GetValue(ctx, key, opts...)
 				} else {
-					ch, err := d.SearchValue(ctx, key, kaddht.Quorum(sc.Quorum))
+					ch, err := d.SearchValue(ctx, key, opts...)
 					if err != nil {
 						getErr = err
 					} else {
 						for v := range ch {
 							vals = append(vals, emitted{sim.Now(), v})
+							time.Sleep(time.Duration(sc.SlowReadMs) * time.Millisecond)
 						}
 					}
 				}
@@ -242,6 +263,19 @@ func TestVerif_C04_FullRT(t *testing.T) {
 			if sc.Local >= 1 {
 				supplied = append(supplied, []byte(fmt.Sprintf("%d|%s|local", sc.Local, tag)))
 			}
+			// (a pausing consumer sees the channel close later than the search ended: see the standard client's part)
+			if sc.SlowReadMs > 0 {
+				var lastExchange time.Duration
+				for _, e := range log {
+					if e.Kind == "request" && e.Type == pb.Message_GET_VALUE && e.End > lastExchange {
+						lastExchange = e.End
+					}
+				}
+				if lastExchange > 0 && lastExchange < closedAt {
+					closedAt = lastExchange
+				}
+			}
+			skipFinal := sc.SlowReadMs > 0 && sc.Quorum > 0 && !sc.Offline
 			atEnd := 0
 			for _, e := range log {
 				if e.End == closedAt {
@@ -280,7 +314,7 @@ func TestVerif_C04_FullRT(t *testing.T) {
 			if len(vals) > 0 {
 				last := vals[len(vals)-1].val
 				for _, sv := range supplied {
-					if frtBetter(sv, last) && !cancelled {
+					if frtBetter(sv, last) && !cancelled && !skipFinal {
 						res.Fail("final-best", "C04/fullrt/final-not-best", "final value %q although %q was supplied before the search ended (quorum %d)", last, sv, sc.Quorum)
 						break
 					}
